@@ -52,6 +52,7 @@ pub const PH_FETCHING: u64 = 2;
 pub const PH_IN_WINDOW: u64 = 3;
 pub const PH_LEAVING: u64 = 4;
 pub const PH_CALLER: u64 = 5;
+pub const PH_HANDOVER: u64 = 6;
 
 /// Instance numbers are globally unique per dispatcher instance: plain counter values for
 /// top-level calls and hand-written controllers, tagged encodings for the two cases where no
